@@ -179,7 +179,15 @@ Definition g_mesh (voronoi areas_cached : bool) : graph :=
     (* 6 *) cached [5; 0];                                (* split_cross *)
     (* 7 *) mkG GPlain [4] (MEdit 0 false) [];            (* areas_for_magnification (Voronoi): areas[areas == -1] = 0.0 *)
     (* 8 *) cached tri;                                   (* neighbors *)
-    (* 9 *) plain tri                                     (* interpolated_array_from(values, shape_native) *)
+    (* 9 *) plain tri;                                    (* interpolated_array_from(values, shape_native) *)
+    (* MapperDelaunay / MapperVoronoi on that mesh (pixelization/mappers/delaunay.py, voronoi.py), regularization ConstantSplit
+       (regularization/constant_split.py), MapperValued (inversion/mapper_valued.py) *)
+    (* 10 *) inp;                                         (* the image-plane data grid of the mapper *)
+    (* 11 *) cached (if voronoi then [10; 0] else [1; 10]);          (* mapper.pix_sub_weights *)
+    (* 12 *) plain (if voronoi then [6; 0] else [1; 6; 0]);          (* mapper.pix_sub_weights_split_cross *)
+    (* 13 *) cached [11];                                 (* mapper.mapping_matrix *)
+    (* 14 *) plain [12];                                  (* mapper.regularization_matrix (ConstantSplit) *)
+    (* 15 *) plain (if voronoi then [13; 7] else [])      (* MapperValued.magnification_via_mesh_from (raises at once on a Delaunay mesh) *)
   ].
 
 (* FitImaging -> Imaging -> inversion (mapping formalism, one regularized rectangular mapper): dataset/imaging/dataset.py,
